@@ -52,23 +52,53 @@ static inline void doExit (Inst& in) { in.m->exit();  in.active = false; }
 
 #if defined(HFSM2_ENABLE_SERIALIZATION) && !defined(VH_NO_SERIAL)
 #define VH_SERIAL 1
+#if defined(__SANITIZE_ADDRESS__)
+#define VH_ASAN 1
+#elif defined(__has_feature)
+#if __has_feature(address_sanitizer)
+#define VH_ASAN 1
+#endif
+#endif
+// serial buffer in an exact-size heap block (red zones abut under ASan) / between canaries (plain builds)
+struct GuardedBuffer {
+	typedef typename Instance::SerialBuffer SB;
+	unsigned char* raw; SB* b;
+	GuardedBuffer() {
+#ifdef VH_ASAN
+		raw = (unsigned char*)malloc(sizeof(SB)); b = new (raw) SB;
+#else
+		raw = (unsigned char*)malloc(sizeof(SB) + 64); memset(raw, 0xCD, sizeof(SB) + 64); b = new (raw + 32) SB;
+#endif
+	}
+	bool intact() const {
+#ifndef VH_ASAN
+		for (int i = 0; i < 32; ++i) if (raw[i] != 0xCD || raw[32 + sizeof(SB) + i] != 0xCD) return false;
+#endif
+		return true;
+	}
+	~GuardedBuffer() { b->~SB(); free(raw); }
+};
 static inline void saveLoad(Driver& d, Inst& from, Inst& to, long step) {
-	typename Instance::SerialBuffer buf;
+	GuardedBuffer g1, g2;
 	from.probe.step = (uint64_t)step;
 	d.opBegin(from, OP_SAVE, to.idx);
-	from.m->save(buf);
-	d.log.tag('b'); for (unsigned i = 0; i < sizeof(buf.data()); ++i) d.log.i(buf.data()[i]); d.log.nl();
+	from.m->save(*g1.b);
+	d.log.tag('b'); for (unsigned i = 0; i < sizeof(g1.b->data()); ++i) d.log.i(g1.b->data()[i]); d.log.nl();
 	d.opEnd(from);
+	if (!g1.intact()) { d.log.tag('V'); d.log.s("C08.save-wrote-outside-the-buffer"); d.log.nl(); }
 	to.probe.step = (uint64_t)step;
 	d.opBegin(to, OP_LOAD, from.idx);
-	to.m->load(buf);
+	to.m->load(*g1.b);
 #if VH_MANUAL
-	to.active = from.active;
+	to.active = to.m->isActive();
 #endif
 	d.opEnd(to);
-	typename Instance::SerialBuffer buf2;
-	to.m->save(buf2);
-	if (buf != buf2) { d.log.tag('V'); d.log.s("C08.resave-differs"); d.log.i(from.idx); d.log.i(to.idx); d.log.nl(); }
+	if (!g1.intact()) { d.log.tag('V'); d.log.s("C08.load-wrote-outside-the-buffer"); d.log.nl(); }
+	to.probe.quiet = true;
+	to.m->save(*g2.b);
+	to.probe.quiet = false;
+	if (*g1.b != *g2.b) { d.log.tag('V'); d.log.s("C08.resave-differs"); d.log.i(from.idx); d.log.i(to.idx); d.log.nl(); }
+	if (!g2.intact()) { d.log.tag('V'); d.log.s("C08.save-wrote-outside-the-buffer"); d.log.nl(); }
 }
 #endif
 
@@ -169,7 +199,13 @@ inline void Driver::stepAuthority(Inst& in, long k) {
 
 inline int Driver::run() {
 	s = mix(seed * 31 + 7);
-	log.tag('H'); log.s(VH_SHAPE_NAME); log.i(VH_SHAPE.nStates); log.i(VH_SHAPE.nRegions); log.i((long)seed); log.i(VH_MANUAL); log.i(VH_SUBST_LIMIT); log.i((long)sizeof(Instance)); log.nl();
+	log.tag('H'); log.s(VH_SHAPE_NAME); log.i(VH_SHAPE.nStates); log.i(VH_SHAPE.nRegions); log.i((long)seed); log.i(VH_MANUAL); log.i(VH_SUBST_LIMIT); log.i((long)sizeof(Instance));
+#ifdef VH_SERIAL
+	log.i((long)Instance::SerialBuffer::BIT_CAPACITY); log.i((long)sizeof(typename Instance::SerialBuffer));
+#else
+	log.i(-1); log.i(-1);
+#endif
+	log.nl();
 	Inst& a = make(0, false);
 	construct(a, 0);
 #if VH_MANUAL
@@ -187,9 +223,40 @@ inline int Driver::run() {
 		if (cfgKey(*a.m, VH_SHAPE) != cfgKey(*rep->m, VH_SHAPE)) { log.tag('R'); log.i(0); log.nl(); saveLoad(*this, a, *rep, 0); }
 	}
 #endif
+	Inst* wb = nullptr;
+#ifdef VH_SERIAL
+	if (wSaveLoad) {
+		wb = &make(1, false);
+		construct(*wb, 0);
+#if VH_MANUAL
+		opBegin(*wb, OP_ENTER); wb->probe.noCancel = true; doEnter(*wb); wb->probe.noCancel = false; opEnd(*wb);
+#endif
+	}
+#endif
 	for (long k = 1; k <= steps; ++k) {
+#if VH_MANUAL
+		if (!a.active) { a.probe.step = (uint64_t)k; opBegin(a, OP_ENTER); a.probe.noCancel = true; doEnter(a); a.probe.noCancel = false; opEnd(a); }
+#endif
 		stepAuthority(a, k);
 		if (rep) syncReplica(a, *rep);
+#ifdef VH_SERIAL
+		if (wb && (int)(next() % 100) < wSaveLoad) {
+			const int saved = lastOp;
+			Inst& b = *wb;
+			const int nb = 1 + (int)(next() % 3);
+			for (int i = 0; i < nb; ++i) {
+#if VH_MANUAL
+				if (!b.active) { b.probe.step = (uint64_t)k; opBegin(b, OP_ENTER); b.probe.noCancel = true; doEnter(b); b.probe.noCancel = false; opEnd(b); }
+#endif
+				stepAuthority(b, k);
+			}
+#if VH_MANUAL
+			if (next() % 5 == 0) { b.probe.step = (uint64_t)k; opBegin(b, OP_EXIT); doExit(b); opEnd(b); }			// load into / save from an inactive instance
+#endif
+			lastOp = saved;
+			if (rep || (next() & 1)) saveLoad(*this, a, b, k); else saveLoad(*this, b, a, k);
+		}
+#endif
 		if (wRecreate && !rep && (int)(next() % 1000) < wRecreate) { destroy(a, k); construct(a, k);
 #if VH_MANUAL
 			opBegin(a, OP_ENTER); a.probe.noCancel = true; doEnter(a); a.probe.noCancel = false; opEnd(a);
